@@ -242,6 +242,7 @@ def verdict(pid, violations):
     new = 0
     kn = 0
     seen = set()
+    confirmed_one = False     # replays cost minutes under load: once one new deviation has been repeated the verdict is 1 anyway
     for v in violations:
         k = v["key"]
         if k in seen:
@@ -251,9 +252,11 @@ def verdict(pid, violations):
             print("KNOWN-FINDING: property=%s key=%s %s" % (pid, k, known[k]))
             kn += 1
         else:
-            if CONFIRM is not None and v.get("replay") and not CONFIRM(v["replay"]):
-                print("note: property=%s key=%s was not repeated by replaying %s (twice); not reported" % (pid, k, v["replay"]))
-                continue
+            if CONFIRM is not None and v.get("replay") and not confirmed_one:
+                if not CONFIRM(v["replay"]):
+                    print("note: property=%s key=%s was not repeated by replaying %s (twice); not reported" % (pid, k, v["replay"]))
+                    continue
+                confirmed_one = True
             print("VIOLATION property=%s replay=%s" % (pid, v.get("replay", "")))
             print("  key=%s %s" % (k, v.get("what", "")))
             new += 1
